@@ -75,6 +75,10 @@ def gen_cases(rng, tier):
         cases.append(["x%d" % n, "c12", "uas", "-", "0:inv,1000:accept,1100:ack:%d,1200:ack,50000:wait" % stray, "1", "ok2xx", "1000", "1200"]); n += 1
         cases.append(["x%d" % n, "c12", "uas", "-", "0:inv,1000:accept,1700:ack:%d,2100:ack:%d,5000:ack,50000:wait" % (stray, stray), "1", "ok2xx", "1000", "5000"]); n += 1
         cases.append(["x%d" % n, "c12", "uas", "-", "0:inv,1000:accept,1700:ack:%d,50000:wait" % stray, "1", "ok2xx", "1000", "-"]); n += 1
+    # the 2xx is the application's to retransmit whatever the transport is (RFC 3261 13.3.1.4): over a reliable transport the same schedule
+    for a in (None, 600, 7000, 31000):
+        cases.append(["x%d" % n, "c12", "uas", "tcp", "0:inv,1000:accept" + (",%d:ack" % (1000 + a) if a is not None else "") + ",41000:wait", "1", "ok2xx", "1000",
+                      "-" if a is None else str(1000 + a)]); n += 1
     # ---- reliable provisional schedule
     rel = hx("Supported: 100rel\r\n")
     pts = grid(G1) if tier == "thorough" else grid(G1)[::2]
